@@ -266,3 +266,20 @@ fn qp_deprecated_as_mut_slice_empty_any_count() {
     kani::cover!(true, "sole owner may call it");
     forget(h);
 }
+
+// zero-sized element types: the uninit constructors take any length and never refuse
+h!(q_uninit_zst_elements, {
+    let u = UniqueArc::<[MaybeUninit<Zst>]>::new_uninit_slice(3);
+    assert!(u.len() == 3);
+    let a = unsafe { UniqueArc::assume_init_slice(u) }.shareable();
+    assert!(a.len() == 3 && Arc::count(&a) == 1);
+    drop(a);
+    let v = UniqueArc::<HeaderSlice<Dt, [MaybeUninit<Zst16>]>>::from_header_and_uninit_slice(Dt::new(0, 1), 2);
+    assert!(v.slice.len() == 2 && v.header.id == 0 && ledger_zero());
+    drop(v);
+    assert!(ledger_is(0, 1) && n_live() == 0);
+    let w = Arc::<[MaybeUninit<Zst>]>::new_uninit_slice(0);
+    assert!(w.len() == 0);
+    drop(w);
+    assert!(n_live() == 0);
+});
